@@ -290,6 +290,7 @@ Proof.
     apply wf_of_wfm; auto. apply wfm_filter. apply wfm_of_wf; auto.
   - unfold reset. destruct (limit <=? 0); simpl; apply wf_of_wfm; auto using wfm_of_wf.
   - constructor; simpl; apply W.
+  - destruct f; simpl; auto. destruct (fst (fst (goc c s metric key now))); auto; constructor; simpl; apply W.
 Qed.
 
 Lemma wf_run v c ops : forall s, wf s -> wf (run v c s ops).
